@@ -64,12 +64,15 @@ impl Read for Cursor {
     #[verifier::external_body]
     fn read_exact(&mut self, buf: &mut [u8]) -> (r: Result<(), IoError>) { unimplemented!() }
 }
-// the synchronous single-chunk decoder: exactly the contract PROVED for cas_chunk_format.rs::deserialize_chunk in U-CHUNKDEC
+// the synchronous single-chunk decoder: exactly the contract PROVED for cas_chunk_format.rs::deserialize_chunk in U-CHUNKDEC.
+// `single_ok_sync`, not `single_ok`: afterwards the reader stands behind what the codec CONSUMED (chunk_next_sync), which is the end of the declared
+// payload only for a frame-exact chunk (lz4_flex's frame decoder stops at the end mark; U-CODEC).  The range readers below therefore walk, and are
+// specified along, chunk_next_sync; on serializer output (frame-exact chunks) that is the boundary table's walk (property level, below).
 #[verifier::external_body]
 fn deserialize_chunk<R: Read>(reader: &mut R) -> (r: Result<(Vec<u8>, usize, u32), CasObjectError>)
     ensures
         final(reader).bytes() == old(reader).bytes(),
-        r matches Ok((buf, c, u)) ==> single_ok(old(reader).bytes(), old(reader).pos(), Seq::empty(), buf@, final(reader).pos(), (c, u)),
+        r matches Ok((buf, c, u)) ==> single_ok_sync(old(reader).bytes(), old(reader).pos(), Seq::empty(), buf@, final(reader).pos(), (c, u)),
 { unimplemented!() }
 // `<[T] as AsRef<[T]>>::as_ref` is the identity (std)
 pub assume_specification<T> [<[T] as std::convert::AsRef<[T]>>::as_ref] (s: &[T]) -> (r: &[T]) ensures r@ == s@;
@@ -84,18 +87,19 @@ fn range_hash_from_chunks(chunks: &[MerkleHash]) -> (r: MerkleHash) ensures r ==
 pub open spec fn nondecreasing(t: Seq<u32>) -> bool { forall|i: int, j: int| 0 <= i <= j < t.len() ==> t[i] <= t[j] }
 pub open spec fn prev_or_zero(t: Seq<u32>, i: int) -> int { if i <= 0 { 0 } else { t[i - 1] as int } }
 pub proof fn lemma_trunc_le(len: usize) ensures (len as u32) as usize <= len { assert((len as u32) as usize <= len) by (bit_vector); }
-// decoding a byte string that consists of whole chunks: d_0 ++ d_1 ++ ... until the end
+// decoding a byte string chunk after chunk the way the sync decoder walks it: d_0 ++ d_1 ++ ... until the end, the next chunk starting where the
+// codec stopped reading (chunk_next_sync; = behind the declared payload when the chunk is frame-exact)
 pub open spec fn decode_from(bytes: Seq<u8>, pos: nat) -> Seq<u8> decreases (if pos < bytes.len() { bytes.len() - pos } else { 0 }) {
-    if pos >= bytes.len() { Seq::empty() } else { chunk_data(bytes, pos) + decode_from(bytes, chunk_next(bytes, pos)) }
+    if pos >= bytes.len() { Seq::empty() } else { chunk_data(bytes, pos) + decode_from(bytes, chunk_next_sync(bytes, pos)) }
 }
 
 proof fn lemma_contents_step(b: Seq<u8>, p: nat, res: Seq<u8>, d: Seq<u8>)
     requires p < b.len(), d == Seq::<u8>::empty() + chunk_data(b, p),
-    ensures (res + d) + decode_from(b, chunk_next(b, p)) == res + decode_from(b, p),
+    ensures (res + d) + decode_from(b, chunk_next_sync(b, p)) == res + decode_from(b, p),
 {
     assert(Seq::<u8>::empty() + chunk_data(b, p) =~= chunk_data(b, p));
-    assert(decode_from(b, p) == chunk_data(b, p) + decode_from(b, chunk_next(b, p)));
-    assert((res + d) + decode_from(b, chunk_next(b, p)) =~= res + (d + decode_from(b, chunk_next(b, p))));
+    assert(decode_from(b, p) == chunk_data(b, p) + decode_from(b, chunk_next_sync(b, p)));
+    assert((res + d) + decode_from(b, chunk_next_sync(b, p)) =~= res + (d + decode_from(b, chunk_next_sync(b, p))));
 }
 
 impl CasObject {
@@ -232,11 +236,13 @@ impl CasObject {
 }
 
 // ==== property level: what the range readers return in terms of the chunks of the object ====================================================
-// payload layout: chunk i occupies exactly [boundary(i-1), boundary(i)) and starts with a well-formed header
+// payload layout: chunk i occupies exactly [boundary(i-1), boundary(i)), starts with a well-formed header and is frame-exact (no slack between the
+// end of its lz4 frame and the end of its declared payload -- otherwise the sync walk of the range readers leaves the boundary table's positions)
 spec fn tiled(bytes: Seq<u8>, t: Seq<u32>) -> bool {
     forall|i: int| 0 <= i < t.len() ==> {
         let q = prev_or_zero(t, i) as nat;
         &&& q + 8 + chunk_clen(bytes, q) == #[trigger] t[i] && t[i] <= bytes.len()
+        &&& frame_exact_at(bytes, q)
     }
 }
 // d_a ++ d_{a+1} ++ ... ++ d_{b-1}, d_i = decode(chunk i)
@@ -258,6 +264,8 @@ proof fn lemma_chunk_in_slice(bytes: Seq<u8>, s: int, e: int, q: nat)
         &&& chunk_clen(sub, q) == chunk_clen(bytes, (s + q) as nat)
         &&& chunk_data(sub, q) == chunk_data(bytes, (s + q) as nat)
         &&& chunk_next(sub, q) + s == chunk_next(bytes, (s + q) as nat)
+        &&& chunk_next_sync(sub, q) + s == chunk_next_sync(bytes, (s + q) as nat)
+        &&& frame_exact_at(sub, q) == frame_exact_at(bytes, (s + q) as nat)
     }),
 {
     let sub = bytes.subrange(s, e);
@@ -288,7 +296,8 @@ proof fn lemma_decode_range(bytes: Seq<u8>, t: Seq<u32>, a: int, b: int, i: int)
         assert(prev_or_zero(t, i) + 8 + chunk_clen(bytes, prev_or_zero(t, i) as nat) == t[i]);
         lemma_chunk_in_slice(bytes, s, e, q);
         assert(q < sub.len());
-        assert(chunk_next(sub, q) == (t[i] - s) as nat);
+        assert(frame_exact_at(bytes, prev_or_zero(t, i) as nat));
+        assert(chunk_next_sync(sub, q) == (t[i] - s) as nat);
         lemma_decode_range(bytes, t, a, b, i + 1);
     }
 }
@@ -307,6 +316,7 @@ spec fn serialized_at(bytes: Seq<u8>, pos: nat, chunk: Seq<u8>) -> bool {
     &&& well_formed_at(bytes, pos)
     &&& chunk_ulen(bytes, pos) == chunk.len()
     &&& chunk_scheme(bytes, pos) matches Some(hs) && decode_spec(hs, bytes.subrange(pos as int + 8, pos as int + 8 + chunk_clen(bytes, pos))) == chunk
+        && frame_exact(hs, bytes.subrange(pos as int + 8, pos as int + 8 + chunk_clen(bytes, pos)))   // (U-CHUNKSER: last conjunct of serialize_chunk's post)
 }
 // what CasObject::serialize produces (U-XORBIDX: boundary[i] = sum of the written sizes, unpacked_chunk_offsets[i] = ub[i]) with every chunk
 // written by serialize_chunk (U-CHUNKSER) one after the other: chunk i of `data` (bytes ub[i-1]..ub[i]) sits at boundary(i-1), is 8 + clen long
